@@ -150,14 +150,16 @@ prop("C06", "fault_enumeration",
      "W1r built with pause points inserted before every durable step of stage/, fileutil/ and log/ (go build -overlay): per case a script of 1-3 files "
      "(optional predecessor chain, rename) whose parts arrive in a drawn order in requests of 1-3 parts with retransmissions and polls; a dry run counts "
      "the durable steps (typically 20-90: mkdir, create, truncate, data write, companion temp write + rename, .part->.full, .full->.wait, log append + sync, "
-     "move to <final>.lck, rename into place, companion removal); then for 1-4 drawn indexes k the script is run again, the whole process image is frozen "
+     "move to <final>.lck, rename into place, companion removal; in a third of the cases the final directory is on another file system, so that the move "
+     "copies: create <final>.lck, copy, remove the staged file, rename); then for 1-4 drawn indexes k the script is run again, the whole process image is frozen "
      "at step k (all goroutines parked), copied, and a new Stage recovers on the copy - in a quarter of the runs crashed again at the j-th step of "
-     "recovery; oracle after recovery and after a resumption phase: each file is partial with an accurate record, or held validated, or delivered under "
+     "recovery, while an observer takes delivered files out of the final directory between any two durable steps of the recovery (as a downstream ingest "
+     "may); oracle after recovery and after a resumption phase: each file is partial with an accurate record, or held validated, or delivered under "
      "its proper name with a log record, exactly once; nothing reported passed/waiting before the crash is lost; non-trivial = crash index strictly inside "
      "the step sequence; distinct = (script, crash indexes)",
      [dict(pkg="stagex", test="TestC06Crash", world="W1r+pause", overlay=True, quick=480, thorough=16000, per_proc=60, shrink_runs=80,
            required_classes=["crash:Move:os.Rename", "crash:putFileAway:Received", "crash:writeJSON:os.Rename", "crash:Receive:os.Rename",
-                             "crash:process:os.Rename", "crash-during-recovery"])],
+                             "crash:process:os.Rename", "crash-during-recovery", "final-on-other-file-system", "crash:Move:Copy"])],
      STAGE_ASSUME + ["process-crash model: every completed system call is durable; no torn writes or reordering",
                      "crash points are the statements the instrumenter recognises as durable steps (listed as crash:* classes in the evidence)",
                      "a crash inside the transfer of one part's bytes is represented by the crash points before and after the data copy"])
